@@ -27,7 +27,11 @@ func init() {
 	register(&Scenario{Prop: "C13", Name: "kv-contract", NoBubble: true, Run: runC13})
 }
 
-var c13Segs = []string{"a", "b", "ab", "a.b", "a-", "é", "k0", "z", "A", "a0"}
+// (valid, printable segments: two-byte and three-byte runes, U+FFFD itself -
+// which is what a decoder yields for malformed input but is a perfectly valid
+// rune when encoded properly -, a leading underscore (the file backend marks
+// keys with one), a space, a long segment)
+var c13Segs = []string{"a", "b", "ab", "a.b", "a-", "é", "k0", "z", "A", "a0", "q\uFFFDr", "日本", "_u", "a b", strings.Repeat("L", 120)}
 
 func genKey(tp *Tape) string {
 	depth := 1 + tp.Pick(3)
